@@ -64,7 +64,7 @@ func c14R10(h H) {
 			if !ok {
 				return
 			}
-			if _, isParam := src.X.(*ssa.Parameter); !isParam {
+			if paramBehind(src.X) == nil {
 				return
 			}
 			sv := fieldOf(src)
@@ -91,7 +91,7 @@ func c14R10(h H) {
 			if !ok || !copied[fieldOf(fa)] {
 				return
 			}
-			if p, ok := fa.X.(*ssa.Parameter); ok {
+			if p := paramBehind(fa.X); p != nil {
 				for i, q := range g.Params {
 					if q == p {
 						if setters[g] == nil {
@@ -212,4 +212,31 @@ func c14R10(h H) {
 	if len(obs) == 0 {
 		r.Unresolve("R10", "no call of a backend-making function found")
 	}
+}
+
+// paramBehind: v is a parameter, or a load of the cell a parameter was spilled into because a closure captures it
+// (the only stores into the cell store that parameter).
+func paramBehind(v ssa.Value) *ssa.Parameter {
+	if p, ok := v.(*ssa.Parameter); ok {
+		return p
+	}
+	ld, ok := v.(*ssa.UnOp)
+	if !ok {
+		return nil
+	}
+	cell, ok := ld.X.(*ssa.Alloc)
+	if !ok || cell.Referrers() == nil {
+		return nil
+	}
+	var prm *ssa.Parameter
+	for _, ref := range *cell.Referrers() {
+		if st, ok := ref.(*ssa.Store); ok && st.Addr == cell {
+			p, ok := st.Val.(*ssa.Parameter)
+			if !ok || (prm != nil && prm != p) {
+				return nil
+			}
+			prm = p
+		}
+	}
+	return prm
 }
